@@ -18,6 +18,9 @@
 (*            n      nodes evaluated;  max  the budget                     *)
 (*            na     objects allocated so far (next object identity)       *)
 (*            p      the program (module -> class -> definition)           *)
+(*            prof, seen   when prof: the rules exercised so far (vacuity   *)
+(*                   evidence; node kinds, call kinds, operators, builtins,*)
+(*                   pattern kinds of attempted matches)                   *)
 (*            cf     evaluation order of calls: FALSE = as spec.md 6.7.5 / *)
 (*                   6.15 say (arguments left to right, THEN the callee);  *)
 (*                   TRUE = callee (and method receiver) first             *)
@@ -249,10 +252,11 @@ Invoke(ev, m, c, n, this, vs, st, depth) ==
           ELSE EV(ev, def.b, [v |-> BindParams(def.ps, vs, base), d |-> depth + 1], st)
 
 \* a method call on receiver value recv: dispatch on the receiver's run-time class
+Mark(st, what) == IF st.prof THEN [st EXCEPT !.seen = @ \cup {what}] ELSE st
 InvokeMethod(ev, recv, n, vs, st, depth) ==
-  CASE recv.t \in {"o", "e"} -> Invoke(ev, recv.m, recv.c, n, recv, vs, st, depth)
-    [] recv.t = "s" -> StrMethod(recv, n, vs, st)
-    [] recv.t = "v" -> VecMethod(recv, n, vs, st)
+  CASE recv.t \in {"o", "e"} -> Invoke(ev, recv.m, recv.c, n, recv, vs, Mark(st, "dispatch:" \o recv.t), depth)
+    [] recv.t = "s" -> StrMethod(recv, n, vs, Mark(st, "Str." \o n))
+    [] recv.t = "v" -> VecMethod(recv, n, vs, Mark(st, "Vec." \o n))
     [] OTHER -> Stuck(st, "receiver of " \o n)
 
 \* what a statically resolved callee (node carries ck) does with its arguments
@@ -367,22 +371,42 @@ EvalNode(ev, e, env, st) ==
     [] e.k = "C"    -> Res(UnitV, st)      \* a class name by itself carries no value
     [] OTHER -> Unsupported(st, "node " \o e.k)
 
+\* vacuity evidence (only when st.prof): which rules a node exercises
+RECURSIVE PatKinds(_)
+PatKinds(p) ==
+  {p.k} \cup (CASE p.k \in {"PT", "PV", "POr"} -> UNION {PatKinds(p.ps[i]) : i \in 1..Len(p.ps)}
+               [] p.k = "PO" -> UNION {PatKinds(p.fs[i].p) : i \in 1..Len(p.fs)}
+               [] OTHER -> {})
+Marks(e) ==
+  {e.k} \cup (CASE e.k = "Call" -> {"call:" \o e.ck} \cup (IF e.ck = "builtin" THEN {e.bi} ELSE {})
+               [] e.k = "Bin" -> {"op:" \o e.op}
+               [] e.k = "U" -> {"op:" \o e.op}
+               [] e.k = "M" -> {IF e.st THEN "ref:" \o e.ck ELSE "ref:method"}
+               [] e.k = "Match" -> UNION {PatKinds(e.cs[i].p) : i \in 1..Len(e.cs)}
+               [] e.k = "IfLet" -> PatKinds(e.p)
+               [] e.k = "Blk" -> UNION {IF e.ss[i].k = "Let" THEN PatKinds(e.ss[i].p) ELSE {} : i \in 1..Len(e.ss)}
+               [] OTHER -> {})
+
 Ev[x \in Any] ==
   IF x.st.n >= x.st.max THEN Impl(x.st, "budget")
-  ELSE EvalNode(Ev, x.e, x.env, [x.st EXCEPT !.n = @ + 1])
+  ELSE EvalNode(Ev, x.e, x.env,
+                IF x.st.prof THEN [x.st EXCEPT !.n = @ + 1, !.seen = @ \cup Marks(x.e)]
+                ELSE [x.st EXCEPT !.n = @ + 1])
 
 -----------------------------------------------------------------------------
 (* The run of a program: entry module's Main.main() (spec.md 12.6) *)
-State0(prog, budget, cf) ==
-  [out |-> <<>>, s |-> OkS, store |-> <<>>, n |-> 0, na |-> 0, max |-> budget, p |-> prog, cf |-> cf]
+State0(prog, budget, cf, prof) ==
+  [out |-> <<>>, s |-> OkS, store |-> <<>>, n |-> 0, na |-> 0, max |-> budget, p |-> prog, cf |-> cf,
+   prof |-> prof, seen |-> {}]
 
 \* [out |-> lines, end |-> [k, m], n |-> nodes evaluated]
-Run(prog, entry, budget, cf) ==
-  LET st0 == State0(prog, budget, cf)
+Run(prog, entry, budget, cf, prof) ==
+  LET st0 == State0(prog, budget, cf, prof)
       r == IF entry \in DOMAIN prog /\ "Main" \in DOMAIN prog[entry] /\ "main" \in DOMAIN prog[entry]["Main"].ms
            THEN Invoke(Ev, entry, "Main", "main", UnitV, <<>>, st0, 0)
            ELSE Stuck(st0, "no Main.main")
   IN [out |-> r.st.out,
       end |-> IF r.st.s.k = "ok" THEN [k |-> "return", m |-> ""] ELSE r.st.s,
-      n |-> r.st.n]
+      n |-> r.st.n,
+      seen |-> r.st.seen \cup {"end:" \o r.st.s.k}]
 =============================================================================
